@@ -47,6 +47,7 @@ type Opts struct {
 	Driver string
 	Hints  string
 	File   string
+	Only   string
 }
 
 var opts Opts
@@ -115,6 +116,7 @@ func main() {
 	fs.StringVar(&opts.Driver, "driver", "", "")
 	fs.StringVar(&opts.Hints, "hints", "", "")
 	fs.StringVar(&opts.File, "file", "", "")
+	fs.StringVar(&opts.Only, "only", "", "restrict to one generator tag (debugging)")
 	fs.Parse(os.Args[2:])
 	if sub == "worker" {
 		workerMain()
